@@ -95,6 +95,11 @@ def _arm_tokens(f, nodes):
         for x in f.walk(st):
             k = x["k"]
             if k in ("ref", "member"):
+                qn = x.get("qn") or ""
+                if "::" in qn:
+                    # a qualified name contributes its qualifier too (traits structs read member by member)
+                    shape.append((k, "q"))
+                    ids.append(qn.rsplit("::", 1)[0].rsplit("::", 1)[-1])
                 shape.append((k,))
                 ids.append(x.get("n") or "")
             elif k in ("call", "mcall", "construct"):
